@@ -41,6 +41,34 @@ def rnd_name(rng):
     return ','.join(rnd_label(rng).hex() for _ in range(rng.choice([0, 1, 2, 3, 5]))) or '-'
 
 
+U_LABELS = ['b\u00fccher', 'm\u00fcnchen', '\u043f\u0440\u0438\u043c\u0435\u0440', '\u4f8b\u3048', 'caf\u00e9', 'stra\u00dfe'.replace('\u00df', 'ss'), '\u03b4\u03bf\u03ba\u03b9\u03bc\u03ae']
+
+
+def idn_failures(rng, n):
+    """DnsNameUncompressed / MX / RRSIG signer names with non-ASCII labels: the wire form is the IDNA A-label form and
+    parsing it gives back the labels that were composed (implementation against the stdlib idna codec as the oracle)."""
+    from cryptoparser.dnsrec.record import DnsNameUncompressed, DnsRecordMx
+    res = []
+    for _ in range(n):
+        labels = [rng.choice(U_LABELS + ['example', 'mail', 'xn--bcher-kva']) for _ in range(rng.randint(1, 4))]
+        try:
+            name = DnsNameUncompressed(labels)
+            wire = bytes(name.compose())
+            want = b''.join(bytes([len(l.encode('idna'))]) + l.encode('idna') for l in labels) + b'\x00'
+            back = DnsNameUncompressed.parse_exact_size(wire)
+            mx = DnsRecordMx(10, name)
+            mx_back = DnsRecordMx.parse_exact_size(bytes(mx.compose()))
+        except Exception as e:  # pylint: disable=broad-except
+            res.append(('a name with internationalised labels %r cannot be composed and parsed back: %s' % (labels, type(e).__name__), {'labels': labels}))
+            continue
+        canon = [l.encode('idna').decode('idna') for l in labels]
+        if wire != want:
+            res.append(('name %r composes to %s, the A-label wire form is %s' % (labels, wire.hex(), want.hex()), {'labels': labels}))
+        elif list(back.labels) != canon or list(mx_back.exchange.labels) != canon:
+            res.append(('name %r parsed back from its wire form as %r' % (canon, list(back.labels)), {'labels': labels}))
+    return res
+
+
 def gen_lines(rng, tier):
     n = 150 if tier == 'quick' else 4000
     algs = [int(m.value.code) for m in gen_tables.enum_factories()['DnsSecAlgorithmFactory'][2]]
@@ -115,6 +143,11 @@ def run(chk):
                               {'cmd': l, 'impl': i, 'reference': ref}, key, True)
     else:
         chk.violation('model runner does not build: %s' % br.failed_file, {'error': br.error}, None, False)
+    # internationalised names: U-labels in the object, A-labels (xn--) on the wire, recovered exactly by the parser
+    idn = idn_failures(rng, 20 if chk.tier == 'quick' else 400)
+    for what, rep in idn[:3]:
+        chk.violation(what, rep, None, True)
+    chk.coverage['idn_names'] = 20 if chk.tier == 'quick' else 400
     chk.coverage['evaluations'] = len(lines) + len(tag_lines)
     chk.coverage['distinct_nontrivial'] = len(set(l for l, o in zip(lines, impl_out) if o.startswith('OK')))
     chk.coverage['traces_validated_against_impl'] = len(lines) + len(tag_lines)
@@ -127,7 +160,7 @@ def run(chk):
                             'non-trivial = distinct records both sides encode')
     for i in range(0, len(lines), max(1, len(lines) // 8)):
         chk.sample({'cmd': lines[i][:140], 'outcome': impl_out[i][:100]})
-    chk.assumptions += ['names are generated over lower-case LDH labels; IDNA beyond ASCII is an oracle',
+    chk.assumptions += ['the Coq specification of names covers LDH labels; internationalised labels are checked on the implementation against the stdlib idna codec',
                         'DSA / ECDSA / EdDSA / GOST DNSKEY layouts are covered by the C01/C05 sweeps only, not by the specification yet']
 
 
@@ -135,6 +168,17 @@ def replay(path):
     from harness import impl
     with open(path) as f:
         r = json.load(f)
+    if 'labels' in r:
+        from cryptoparser.dnsrec.record import DnsNameUncompressed
+        labels = r['labels']
+        try:
+            back = list(DnsNameUncompressed.parse_exact_size(bytes(DnsNameUncompressed(labels).compose())).labels)
+        except Exception as e:  # pylint: disable=broad-except
+            back = type(e).__name__
+        want = [l.encode('idna').decode('idna') for l in labels]
+        print('labels %r -> parsed back as %r' % (want, back))
+        print('replay: property %s' % ('holds on this input' if back == want else 'FAILS on this input'))
+        return 0 if back == want else 1
     if 'cmd' not in r:
         print(json.dumps(r, indent=1)[:3000])
         return 1
